@@ -29,8 +29,8 @@ def class_table():
     return _ct
 
 
-def request(ops, nslots, watch):
-    return ("history", [class_table(), nslots, [list(o) for o in ops], list(watch)])
+def request(ops, nslots, watch, quiet=0):
+    return ("history", [class_table(), nslots, [list(o) for o in ops], list(watch), quiet])
 
 
 # ---------------------------------------------------------------------------
@@ -121,12 +121,20 @@ def _run_split(which, lines, jobs):
     else:
         cmd, env, cwd = [common.PY, os.path.join(common.HARNESS, "implrunner.py")], common.env_for_impl(), common.HARNESS
     parts = common._chunks(lines, max(1, min(jobs, len(lines))))
-    with cf.ThreadPoolExecutor(len(parts)) as ex:
-        rs = list(ex.map(lambda part: common.run_lines(cmd, part, env=env, cwd=cwd), parts))
-    out = [l for r in rs for l in r[1]]
-    if max(r[0] for r in rs) != 0 or len(out) != len(lines):
-        raise RuntimeError(f"{which} runner failed: got {len(out)}/{len(lines)} lines: " + "".join(r[2] for r in rs)[-1500:])
-    return out
+    import time
+    for attempt in range(4):
+        with cf.ThreadPoolExecutor(len(parts)) as ex:
+            rs = list(ex.map(lambda part: common.run_lines(cmd, part, env=env, cwd=cwd), parts))
+        out = [l for r in rs for l in r[1]]
+        if max(r[0] for r in rs) == 0 and len(out) == len(lines):
+            return out
+        # the model runner binary is replaced when a concurrent check re-extracts it: wait and retry
+        if which != "model" or attempt == 3:
+            break
+        time.sleep(5)
+        with common.BuildLock():
+            pass
+    raise RuntimeError(f"{which} runner failed: got {len(out)}/{len(lines)} lines: " + "".join(r[2] for r in rs)[-1500:])
 
 
 _TOK = {"N": "null", "T": "true", "F": "false", "(": "[", ")": "]", "{": '{"E":[', "}": "]}"}
@@ -169,13 +177,13 @@ def fast_parse(line):
     return cook(raw_parse(line))
 
 
-def run_both(hists, nslots, watch, jobs=8):
+def run_both(hists, nslots, watch, jobs=8, quiet=0):
     """-> list of (model result, implementation result, raw implementation result) per history.
     Result lines that are textually identical are accepted as agreeing (the slow canonical
     comparison is needed only when the texts differ): for those the first two entries are None."""
     ct = class_table()
     batch = max(1, min(BATCH, len(hists) // (2 * jobs) + 1))
-    reqs = [("histories", [ct, nslots, [[list(o) for o in h] for h in hists[k:k + batch]], list(watch)])
+    reqs = [("histories", [ct, nslots, [[list(o) for o in h] for h in hists[k:k + batch]], list(watch), quiet])
             for k in range(0, len(hists), batch)]
     lines = [enc(op) + " " + enc(arg) for op, arg in reqs]
     ml, il = _run_split("model", lines, jobs), _run_split("impl", lines, jobs)
@@ -198,13 +206,13 @@ def run_both(hists, nslots, watch, jobs=8):
     return out
 
 
-def correspond_histories(ctx, label, hists, nslots, watch, jobs=8):
+def correspond_histories(ctx, label, hists, nslots, watch, jobs=8, quiet=0):
     """hists: list of op lists.  Returns disagreements as (index, request, model, impl) where
     request = ("history", [class table, nslots, ops, watch]); fills the coverage statistics."""
     import collections, hashlib
     if not hists:
         return []
-    res = run_both(hists, nslots, watch, jobs=jobs)
+    res = run_both(hists, nslots, watch, jobs=jobs, quiet=quiet)
     diffs, kinds, sizes, distinct = [], collections.Counter(), collections.Counter(), set()
     steps = 0
     faults = {",".join(str(ord(c)) for c in k) for k in MODEL_FAULTS}
@@ -220,7 +228,7 @@ def correspond_histories(ctx, label, hists, nslots, watch, jobs=8):
         if bad:
             if a is None:
                 a = b = canon_obs("history", cook(raw))
-            diffs.append((k, request(h, nslots, watch), a, b))
+            diffs.append((k, request(h, nslots, watch, quiet), a, b))
             continue
         steps += len(raw)
         for step in raw:
@@ -264,29 +272,31 @@ def first_divergence(m, i):
     return min(len(m), len(i))
 
 
-def disagree_hist(ops, nslots, watch):
-    rq = request(ops, nslots, watch)
-    a = canon_obs("history", run_model([rq], jobs=1)[0])
-    b = canon_obs("history", run_impl([rq], jobs=1)[0])
-    return a != b or isinstance(a, Err)
+def disagree_hist(ops, nslots, watch, quiet=0):
+    r = run_both([list(ops)], nslots, watch, jobs=1, quiet=min(quiet, max(0, len(ops) - 1)))[0]
+    return r[0] is not None and (r[0] != r[1] or isinstance(r[0], Err))
 
 
 def shrink_history(ops, nslots, watch, budget=120):
-    """delete ops while model and implementation still disagree"""
+    """delete ops while model and implementation still disagree (everything observed)"""
     def cands(h):
         for k in range(len(h) - 1, -1, -1):
             yield h[:k] + h[k + 1:]
     return shrink(list(ops), lambda h: bool(h) and disagree_hist(h, nslots, watch), cands, budget=budget)
 
 
+def diff_prefix(d):
+    """the disagreeing history cut after the first step on which model and implementation differ"""
+    _, nslots, ops, watch, quiet = d[1][1]
+    k = first_divergence(d[2], d[3])
+    return ops[:quiet + k + 1], nslots, watch
+
+
 def shrink_diffs(diffs, limit=3):
     """-> list of shrunk histories [(ops, nslots, watch)] for the first few disagreements"""
     out = []
     for d in diffs[:limit]:
-        _, ops_ct = d[1]
-        _, nslots, ops, watch = ops_ct
-        k = first_divergence(d[2], d[3])
-        ops = ops[:k + 1]
+        ops, nslots, watch = diff_prefix(d)
         out.append((shrink_history(ops, nslots, watch), nslots, watch))
     return out
 
@@ -536,8 +546,8 @@ def run_check(ctx, pid, batches, rule, partial=(), refuted=()):
     diffs, all_batches = [], []
     if runner.ok:
         all_batches = batches(ctx)
-        for label, hists, nslots, watch in all_batches:
-            diffs += correspond_histories(ctx, label, hists, nslots, watch, jobs=16)
+        for label, hists, nslots, watch, *q in all_batches:
+            diffs += correspond_histories(ctx, label, hists, nslots, watch, jobs=16, quiet=q[0] if q else 0)
     ctx.cov["rule"] = rule
     ctx.cov["partial"] = list(partial)
     if refuted:
@@ -550,15 +560,14 @@ def run_check(ctx, pid, batches, rule, partial=(), refuted=()):
         for ops, nslots, watch in shrink_diffs(diffs, limit=3):
             cands.append((ops, nslots))
         for d in diffs[:40]:
-            _, nslots, ops, _ = d[1][1]
-            k = first_divergence(d[2], d[3])
-            cands.append((ops[:k + 1], nslots))
+            ops, nslots, _ = diff_prefix(d)
+            cands.append((ops, nslots))
         found = oracle_search(pid, cands, deep=True)
         if found:
             return found
         # (c) the enumerators against the oracle (bounded)
         budget = 4000 if ctx.tier == "quick" else 40000
-        for label, hists, nslots, watch in all_batches:
+        for label, hists, nslots, watch, *_ in all_batches:
             step = max(1, len(hists) // budget)
             found += oracle_search(pid, [(h, nslots) for h in hists[::step]][:budget], deep=False)
             if found:
